@@ -64,6 +64,34 @@ var props = map[string]propInfo{
 	"C20": {Level: "model_checking", QuickS: 60, ThoroughS: 300},
 }
 
+// memCap is the resident-set size (bytes) at which a shard stops exploring (reported as a cap, exit 0): all shards together
+// stay below three quarters of the machine's memory.
+func memCap(shards int) int64 {
+	b, err := os.ReadFile("/proc/meminfo")
+	total := int64(16 << 30)
+	if err == nil {
+		for _, l := range strings.Split(string(b), "\n") {
+			if strings.HasPrefix(l, "MemTotal:") {
+				f := strings.Fields(l)
+				if len(f) >= 2 {
+					if kb, e := strconv.ParseInt(f[1], 10, 64); e == nil {
+						total = kb * 1024
+					}
+				}
+			}
+		}
+	}
+	return total * 3 / 4 / int64(max(shards, 1))
+}
+
+func head(s string, n int) string {
+	lines := strings.Split(s, "\n")
+	if len(lines) > n {
+		lines = lines[:n]
+	}
+	return strings.Join(lines, "\n")
+}
+
 func die(code int, format string, args ...any) {
 	fmt.Fprintf(os.Stderr, "vcheck: "+format+"\n", args...)
 	os.Exit(code)
@@ -239,7 +267,7 @@ func runCmd(args []string) {
 			defer wg.Done()
 			of := filepath.Join(scratch, fmt.Sprintf("out_%d.json", i))
 			wargs := []string{"-prop", id, "-tier", *tier, "-shard", strconv.Itoa(i), "-of", strconv.Itoa(n), "-out", of,
-				"-seed", strconv.FormatInt(seed, 10), "-budget", fmt.Sprintf("%ds", bs)}
+				"-seed", strconv.FormatInt(seed, 10), "-budget", fmt.Sprintf("%ds", bs), "-memcap", strconv.FormatInt(memCap(n), 10)}
 			if *unit != "" {
 				wargs = append(wargs, "-unit", *unit)
 			}
@@ -265,7 +293,7 @@ func runCmd(args []string) {
 			select {
 			case err := <-done:
 				if err != nil {
-					errs[i] = fmt.Sprintf("shard %d: %v\n%s", i, err, tail(se.String(), 60))
+					errs[i] = fmt.Sprintf("shard %d: %v\n%s\n  [...]\n%s", i, err, head(se.String(), 12), tail(se.String(), 25))
 					return
 				}
 			case <-time.After(time.Duration(bs)*time.Second*2 + 120*time.Second):
